@@ -1,10 +1,250 @@
 import PhysisModel.Base.Proto
+import PhysisModel.Spec.Archive
+import PhysisModel.Spec.SqPackData
+import PhysisModel.Model.GameData
+import PhysisModel.Model.Dat
+/-!
+Driver for C01.  Case grammar (one line, fields separated by single spaces):
+
+  arch <platform 0..4> <dirs> <slots> <dats> <queries> <mode>
+
+* dirs     `-` or comma-separated hex names of the directories below `sqpack` (listing order)
+* slots    `-` or `;`-separated `exp:cat:chunk:kind:J<hex>` (junk file) or
+           `exp:cat:chunk:kind:F,<platform>,<header kind 1|2>,<data seg len>,<folder seg len>[,<entry>…]`
+           with entry = `P<path hex>/<syn 0|1>/<dat id>/<offset in 128-byte units>` (hash of the path
+           under the header kind) or `H<n>/<m>/<syn>/<dat>/<units>` (explicit hash words; m ignored for index2)
+* dats     `-` or `;`-separated `exp:cat:chunk:datid:<units>/<content hex>[,<units>/<content hex>…]`
+           (a dat file holding raw single-block standard entries at those offsets)
+* queries  comma-separated `e<path hex>` (exists) | `o<path hex>` (find_offset) | `x<path hex>` (extract)
+* mode     `one` (all queries on one handle) | `fresh` (a new handle per query)
+
+  idx <F,… file spec as above> <paths>      one index file, `SqPackIndex::find_entry` on each path (hex,
+  comma-separated, each with a `/`); `input` = `<index file hex> <paths>`; answers `d<dat id>o<offset>` | `none`
+
+`input` for the implementation: `<platform> <dirs> <files> <queries> <mode>` with
+files = `;`-separated `<dir hex>/<name hex>:<content hex>` — every file encoded by `Spec/`.
+Answers: comma-separated `T` | `F` | `o<decimal>` | `onone` | `x<hex>` | `xnone` | `panic`.
+-/
 namespace Physis.Driver.C01
-open Physis Physis.Proto
+open Physis Physis.Proto Physis.Spec.Archive
+
+def platOf : Nat → Option Platform
+  | 0 => some .win32 | 1 => some .ps3 | 2 => some .ps4 | 3 => some .ps5 | 4 => some .xbox | _ => none
+
+def allCats : List Category :=
+  [.common, .bgcommon, .bg, .cut, .chara, .shader, .ui, .sound, .vfx, .uiScript, .exd,
+   .gameScript, .music, .sqpackTest, .debug]
+
+def catOfId (n : Nat) : Option Category := allCats.find? (fun c => c.id == n)
+
+def kindOf : Nat → Option Kind
+  | 1 => some .index1 | 2 => some .index2 | _ => none
+
+def splitList (s : String) (sep : String) : List String :=
+  if s == "-" then [] else s.splitOn sep
+
+structure SlotSpec where
+  exp : Nat
+  cat : Category
+  chunk : Nat
+  kind : Kind
+  slot : Slot
+
+def parseEntry (k : Kind) (s : String) : Option Entry := do
+  if s.startsWith "P" then
+    match (s.drop 1).toString.splitOn "/" with
+    | [p, syn, dat, units] =>
+      let p ← Bytes.ofHexFast p
+      let h ← hashOf k (Str.lower p)
+      some { hash := h, synonym := (← syn.toNat?) == 1, datId := (← dat.toNat?).toUInt8,
+             offset := ((← units.toNat?) * 128).toUInt64 }
+    | _ => none
+  else if s.startsWith "H" then
+    match (s.drop 1).toString.splitOn "/" with
+    | [n, m, syn, dat, units] =>
+      let n ← n.toNat?
+      let m ← m.toNat?
+      let h : Hash := match k with | .index1 => .split n.toUInt32 m.toUInt32 | .index2 => .full n.toUInt32
+      some { hash := h, synonym := (← syn.toNat?) == 1, datId := (← dat.toNat?).toUInt8,
+             offset := ((← units.toNat?) * 128).toUInt64 }
+    | _ => none
+  else none
+
+def parseSlot (s : String) : Option SlotSpec := do
+  match s.splitOn ":" with
+  | [e, c, ch, k, spec] =>
+    let e ← e.toNat?
+    let c ← catOfId (← c.toNat?)
+    let ch ← ch.toNat?
+    let k ← kindOf (← k.toNat?)
+    if spec.startsWith "J" then
+      let bs ← Bytes.ofHexFast (spec.drop 1).toString
+      some ⟨e, c, ch, k, .junk bs⟩
+    else
+      match spec.splitOn "," with
+      | "F" :: pl :: hk :: dl :: fl :: ents =>
+        let pl ← platOf (← pl.toNat?)
+        let hk ← kindOf (← hk.toNat?)
+        let dl ← dl.toNat?
+        let fl ← fl.toNat?
+        let ents ← ents.mapM (parseEntry hk)
+        some ⟨e, c, ch, k, .file { platform := pl, kind := hk, entries := ents,
+                                   dataSeg := List.replicate dl 0xFF, folderSeg := List.replicate fl 0x11 }⟩
+      | _ => none
+  | _ => none
+
+structure DatSpec where
+  exp : Nat
+  cat : Category
+  chunk : Nat
+  datId : Nat
+  entries : List (Nat × Bytes)     -- (offset, content)
+
+def parseDat (s : String) : Option DatSpec := do
+  match s.splitOn ":" with
+  | [e, c, ch, d, ents] =>
+    let ents ← (ents.splitOn ",").mapM (fun x =>
+      match x.splitOn "/" with
+      | [u, h] => do some ((← u.toNat?) * 128, ← Bytes.ofHexFast h)
+      | _ => none)
+    some ⟨← e.toNat?, ← catOfId (← c.toNat?), ← ch.toNat?, ← d.toNat?, ents⟩
+  | _ => none
+
+def parseQuery (s : String) : Option GameData.Query := do
+  let p ← Bytes.ofHexFast (s.drop 1).toString
+  if s.startsWith "e" then some (.exists p)
+  else if s.startsWith "o" then some (.findOffset p)
+  else if s.startsWith "x" then some (.extract p)
+  else none
+
+def archiveOf (pl : Platform) (dirs : List Bytes) (slots : List SlotSpec) : Archive :=
+  { platform := pl, dirs := dirs,
+    slot := fun e c ch k =>
+      match slots.find? (fun s => s.exp == e && s.cat == c && s.chunk == ch && s.kind == k) with
+      | some s => s.slot
+      | none => .absent }
+
+def placeAt (file : Bytes) (off : Nat) (entry : Bytes) : Bytes :=
+  file.take off ++ List.replicate (off - file.length) 0 ++ entry ++ file.drop (off + entry.length)
+
+def datBytes (d : DatSpec) : Bytes :=
+  d.entries.foldl (fun f (off, content) =>
+    placeAt f off (Spec.SqPackData.packStandard [{ data := content, compressed := none }])) []
+
+abbrev Files := List ((Bytes × Bytes) × Bytes)
+
+def materialise (pl : Platform) (slots : List SlotSpec) (dats : List DatSpec) : Files :=
+  slots.filterMap (fun s => (s.slot.bytes).map (fun b => ((repoDir s.exp, indexName pl s.exp s.cat s.chunk s.kind), b))) ++
+  dats.map (fun d => ((repoDir d.exp, datName pl d.exp d.cat d.chunk d.datId), datBytes d))
+
+def showFiles (fs : Files) : String :=
+  if fs.isEmpty then "-" else
+  ";".intercalate (fs.map (fun ((d, n), b) => Bytes.toHex d ++ "/" ++ Bytes.toHex n ++ ":" ++ Bytes.toHex b))
+
+/-- the specification's answer, from the abstract archive -/
+def specAnswer (a : Archive) (dats : List DatSpec) : GameData.Query → String
+  | .exists p => if (locate a p).isSome then "T" else "F"
+  | .findOffset p =>
+    match locate a p with
+    | some l => "o" ++ toString l.offset.toNat
+    | none => "onone"
+  | .extract p =>
+    match locate a p with
+    | none => "xnone"
+    | some l =>
+      match dats.find? (fun d => d.exp == l.exp && d.cat == l.cat && d.chunk == l.chunk && d.datId == l.datId.toNat) with
+      | none => "xnone"
+      | some d =>
+        match d.entries.lookup l.offset.toNat with
+        | some content => "x" ++ Bytes.toHex content
+        | none => "xnone"
+
+def modelPlat : Platform → Repository.Platform
+  | .win32 => .win32 | .ps3 => .ps3 | .ps4 => .ps4 | .ps5 => .ps5 | .xbox => .xbox
+
+def showAnswer (disk : GameData.Disk) : GameData.Answer → String
+  | .bool b => if b then "T" else "F"
+  | .offset (some o) => "o" ++ toString o.toNat
+  | .offset none => "onone"
+  | .dat none => "xnone"
+  | .dat (some (k, off)) =>
+    match disk k.1 k.2 with
+    | none => "xnone"
+    | some content =>
+      match Dat.readFromOffset (fun _ _ => none) content off.toNat with
+      | none => "panic"
+      | some none => "xnone"
+      | some (some d) => "x" ++ Bytes.toHex d
+  | .panic => "panic"
+
+def modelAnswers (pl : Platform) (dirs : List Bytes) (files : Files) (qs : List GameData.Query) (fresh : Bool) : List String :=
+  let disk : GameData.Disk := fun d n => files.lookup (d, n)
+  match GameData.fromExisting (modelPlat pl) dirs with
+  | none => qs.map (fun _ => "panic")
+  | some g =>
+    if fresh then qs.map (fun q => showAnswer disk (GameData.step disk g q).1)
+    else (GameData.answers disk g qs).map (showAnswer disk)
+
+/-- `idx`: one index file, `SqPackIndex::from_existing` + `find_entry` per path -/
+def handleIdx (spec qs : String) : Option String := do
+  let f ← (match spec.splitOn "," with
+    | "F" :: pl :: hk :: dl :: fl :: ents => do
+      let pl ← platOf (← pl.toNat?)
+      let hk ← kindOf (← hk.toNat?)
+      let ents ← ents.mapM (parseEntry hk)
+      some ({ platform := pl, kind := hk, entries := ents, dataSeg := List.replicate (← dl.toNat?) 0xFF,
+              folderSeg := List.replicate (← fl.toNat?) 0x11 } : IndexFile)
+    | _ => none)
+  let paths ← (splitList qs ",").mapM Bytes.ofHexFast
+  if !f.wf then none else
+  let file := encodeIndex f
+  let showE (d : UInt8) (o : UInt64) : String := "d" ++ toString d.toNat ++ "o" ++ toString o.toNat
+  -- paths without a folder separator are outside the property (and panic under `index`)
+  if paths.any (fun p => (hashOf f.kind (Str.lower p)).isNone) then none else
+  let expected := paths.map (fun p =>
+    match findIn f (Str.lower p) with
+    | some e => showE e.datId e.offset
+    | none => "none")
+  let model := match Index.parse file with
+    | none => paths.map (fun _ => "noindex")
+    | some ix => paths.map (fun p =>
+      match Index.findEntry ix p with
+      | none => "panic"
+      | some none => "none"
+      | some (some e) => showE e.dataFileId e.offset)
+  let found := paths.any (fun p => (findIn f (Str.lower p)).isSome)
+  some (answer (Bytes.toHex file ++ " " ++ qs) (",".intercalate expected) (if found then [] else ["triv"])
+    (some (",".intercalate model)))
 
 /-- one case line in, one answer line out (see `Base/Proto.lean`) -/
 def handle (line : String) : String :=
   match fields line with
+  | ["idx", spec, qs] =>
+    match handleIdx spec qs with
+    | some r => r
+    | none => bad
+  | ["arch", pl, dirs, slots, dats, qs, mode] =>
+    match (do
+      let pl ← platOf (← pl.toNat?)
+      let dirsB ← (splitList dirs ",").mapM Bytes.ofHexFast
+      let slotsP ← (splitList slots ";").mapM parseSlot
+      let datsP ← (splitList dats ";").mapM parseDat
+      -- files of a directory that does not exist cannot exist
+      let slotsP := slotsP.filter (fun s => dirsB.contains (repoDir s.exp))
+      let datsP := datsP.filter (fun d => dirsB.contains (repoDir d.exp))
+      let qsP ← (splitList qs ",").mapM parseQuery
+      let fresh ← (if mode == "one" then some false else if mode == "fresh" then some true else none)
+      let a := archiveOf pl dirsB slotsP
+      let files := materialise pl slotsP datsP
+      let expected := ",".intercalate (qsP.map (specAnswer a datsP))
+      let model := ",".intercalate (modelAnswers pl dirsB files qsP fresh)
+      let input := " ".intercalate [toString pl.id.toNat, dirs, showFiles files, qs, mode]
+      let stored := qsP.any (fun q => match q with
+        | .exists p | .findOffset p | .extract p => (locate a p).isSome)
+      some (answer input (if qsP.isEmpty then "-" else expected) (if stored then [] else ["triv"])
+        (some (if qsP.isEmpty then "-" else model)))) with
+    | some r => r
+    | none => bad
   | _ => bad
 
 end Physis.Driver.C01
